@@ -335,7 +335,7 @@ class FuncAnalysis:
         if o in ("urem", "udiv", "and", "sub", "add", "mul", "shl", "lshr", "or", "xor"):
             t1 = self.term(i["ops"][0], st)
             t2 = self.term(i["ops"][1], st)
-            if t1[0] != "v" and t2[0] != "v":
+            if (t1[0] != "v" and t2[0] != "v") or t2[0] == "c" or t1[0] == "c":
                 return ("bin", o, t1, t2)
             return ("v", i["id"])
         if o == "phi":
@@ -456,10 +456,13 @@ class FuncAnalysis:
             st.must[key] = (loc, valterm)
         st.may.setdefault((key, tag), (loc, site))
 
-    def do_read(self, addr, size, inst):
+    def do_read(self, addr, size, inst, st=None):
+        """upward-exposed reads: loads of memory this function has not definitely written before"""
         if addr is None:
             return
         key = (self.reg(addr), size)
+        if st is not None and key in st.must:
+            return
         self.S.reads.setdefault(key, (Loc(addr, size), self.site(inst)))
 
     # ------------------------------------------------------------ instructions
@@ -478,7 +481,7 @@ class FuncAnalysis:
             self.termcache[inst["id"]] = self.term(["i", inst["id"]], st)
             if collect:
                 self.note_deref(inst, inst["ops"][0], st, "load")
-                self.do_read(addr, inst["size"], inst)
+                self.do_read(addr, inst["size"], inst, st)
         elif o == "call":
             self.do_call(st, inst, collect)
 
@@ -637,6 +640,8 @@ class FuncAnalysis:
                 for (k2, (loc, w)) in s.reads.items():
                     a2 = xl_addr(loc.addr)
                     if a2 is not None and a2.root[0] != "alloca":
+                        if (akey(a2), loc.size) in st.must:
+                            continue      # the callee reads what this function has definitely written itself
                         self.S.reads.setdefault((self.reg(a2), loc.size), (Loc(a2, loc.size), site + " -> " + w))
                 for (iid, fn, sz, w) in s.allocs:
                     self.S.allocs.append((inst["id"], fn, xl_term(sz, s) or ("v", "sz"), site + " -> " + w))
